@@ -24,11 +24,11 @@ def differential(workdir, orig_sources, new_sources, driver, stdins, rtol=1e-9, 
     shutil.rmtree(od, ignore_errors=True)
     shutil.rmtree(nd, ignore_errors=True)
     try:
-        oexe = diffexec.build(od, list(orig_sources) + [driver])
+        oexe = build_single(od, list(orig_sources) + [driver])
     except diffexec.BuildError as e:
         return {'status': 'orig_bad', 'detail': str(e), 'runs': 0}
     try:
-        nexe = diffexec.build(nd, list(new_sources) + [driver])
+        nexe = build_single(nd, list(new_sources) + [driver])
     except diffexec.BuildError as e:
         return {'status': 'new_build_fail', 'detail': str(e), 'runs': 0}
     nruns = 0
@@ -51,6 +51,18 @@ def differential(workdir, orig_sources, new_sources, driver, stdins, rtol=1e-9, 
             return {'status': 'differ', 'detail': why, 'stdin': sin, 'orig_out': ro['out'][-1500:],
                     'new_out': rn['out'][-1500:], 'runs': nruns}
     return {'status': 'equal', 'detail': '', 'runs': nruns}
+
+
+def build_single(workdir, sources, timeout=180):
+    """compile and link all sources (dependency order) as one file with one gfortran invocation (cheaper under load)"""
+    workdir = Path(workdir)
+    workdir.mkdir(parents=True, exist_ok=True)
+    text = '\n'.join(t for _, t in sources)
+    (workdir / 'all.F90').write_text(text)
+    rc, _, err = diffexec._run(['gfortran'] + diffexec.FFLAGS + ['all.F90', '-o', 'a.out'], workdir, timeout)
+    if rc != 0:
+        raise diffexec.BuildError('fc', f'all.F90: {err[-1500:]}')
+    return workdir / 'a.out'
 
 
 def norm_compile_error(detail):
